@@ -8,7 +8,7 @@ import sys
 from harness import tlc, core
 from harness.tlc import tla
 
-ROLES = ['obj', 'elemmul', 'matmul_left', 'matmul_right', 'rhs', 'bound', 'add_const', 'set_rhs', 'set_matrix', 'rand_coef', 'expt_rhs', 'prob_rhs']
+ROLES = ['obj', 'elemmul', 'matmul_left', 'matmul_right', 'rhs', 'bound', 'add_const', 'set_rhs', 'set_matrix', 'rand_coef', 'expt_rhs', 'prob_rhs', 'quad_matrix', 'quad_set']
 DTYPES = ['float64', 'float32', 'float16', 'int64', 'int32', 'int8', 'uint8', 'bool', 'object']
 LAYOUTS = ['contiguous', 'fortran', 'strided', 'reversed', 'transposed', 'broadcast']
 
@@ -31,6 +31,9 @@ def run(rep, tier, props):
         keep, seen = [], set()
         for c in cases:
             keys = [('d', c['role'], c['front'], c['dtype']), ('l', c['role'], c['front'], c['layout'], c['writeable'])]
+            if c['dtype'] in ('float64', 'float32'):
+                # the dtypes numerical libraries work on in place: each of them with every layout
+                keys.append(('fl', c['role'], c['front'], c['dtype'], c['layout'], c['writeable']))
             if any(k not in seen for k in keys):
                 keep.append(c)
                 seen.update(keys)
